@@ -140,12 +140,12 @@ fn is_empty_iff(m: usize, k: usize) {
 
 macro_rules! bloom_cfg {
     ($m:literal, $k:literal, $u:literal, $a:ident, $b:ident, $c:ident, $d:ident, $e:ident, $f:ident) => {
-        harness!($a, unwind $u, { insert_then_query($m, $k) });
-        harness!($b, unwind $u, { query_stable_under_insert($m, $k) });
-        harness!($c, unwind $u, { union_is_or($m, $k) });
-        harness!($d, unwind $u, { insert_is_or_singleton($m, $k) });
-        harness!($e, unwind $u, { clear_clone($m, $k) });
-        harness!($f, unwind $u, { is_empty_iff($m, $k) });
+        harness!($a, unwind $u, ln, { insert_then_query($m, $k) });
+        harness!($b, unwind $u, ln, { query_stable_under_insert($m, $k) });
+        harness!($c, unwind $u, ln, { union_is_or($m, $k) });
+        harness!($d, unwind $u, ln, { insert_is_or_singleton($m, $k) });
+        harness!($e, unwind $u, ln, { clear_clone($m, $k) });
+        harness!($f, unwind $u, ln, { is_empty_iff($m, $k) });
     };
 }
 
